@@ -11,18 +11,18 @@ Lemma veq_sym s1 s2 : veq s1 s2 -> veq s2 s1. Proof. unfold veq; congruence. Qed
 Lemma veq_trans s1 s2 s3 : veq s1 s2 -> veq s2 s3 -> veq s1 s3. Proof. unfold veq; congruence. Qed.
 
 Lemma veq_inv s1 s2 : veq s1 s2 ->
-  exists a b c d e e' f o g h p1 p2, s1 = mkSt a b c d e e' f o g h p1 /\ s2 = mkSt a b c d e e' f o g h p2.
+  exists a b c d e e' f o tm g h p1 p2, s1 = mkSt a b c d e e' f o tm g h p1 /\ s2 = mkSt a b c d e e' f o tm g h p2.
 Proof.
   destruct s1, s2; unfold veq, visible; cbn; intro H; inversion H; subst.
   repeat eexists.
 Qed.
 
 Ltac crush_step :=
-  unfold fixed, upstream, step, export, summary, cost, get_cost, cost_of, set_spec, flip, set_opt, ov, train_step, forward, resample, sample, set_th_rng,
+  unfold fixed, upstream, step, export, summary, cost, get_cost, cost_of, set_spec, flip, set_opt, set_train, ov, train_step, forward, resample, sample, set_th_rng,
          bn_flag, drop_flag, samp_flag, veq, visible;
-  cbn [pv bv tr_wrap tr_seed tr_leaf tr_sub th opt rng spec polluted fst snd restore_state fork_rng summary_pure keep_options];
+  cbn [pv bv tr_wrap tr_seed tr_leaf tr_sub th opt trn rng spec polluted fst snd restore_state fork_rng summary_pure keep_options];
   repeat match goal with
-         | |- context [match ?x with _ => _ end] => destruct x eqn:?; cbn [pv bv tr_wrap tr_seed tr_leaf tr_sub th opt rng spec polluted fst snd]
+         | |- context [match ?x with _ => _ end] => destruct x eqn:?; cbn [pv bv tr_wrap tr_seed tr_leaf tr_sub th opt trn rng spec polluted fst snd]
          end;
   try (split; reflexivity); try reflexivity; try congruence.
 
@@ -30,7 +30,7 @@ Ltac crush_step :=
 Lemma step_congr v c o s1 s2 : veq s1 s2 ->
   veq (fst (step v c s1 o)) (fst (step v c s2 o)) /\ snd (step v c s1 o) = snd (step v c s2 o).
 Proof.
-  intro H. destruct (veq_inv _ _ H) as (a & b & c0 & d & e & e' & f & oo & g & h & p1 & p2 & -> & ->). clear H.
+  intro H. destruct (veq_inv _ _ H) as (a & b & c0 & d & e & e' & f & oo & tm & g & h & p1 & p2 & -> & ->). clear H.
   destruct v as [rs fr sp ko]. destruct o; crush_step.
 Qed.
 
@@ -45,7 +45,7 @@ Qed.
 Lemma observer_step_polluted c s o : is_observer o = true ->
   polluted (fst (step fixed c s o)) = polluted s \/ polluted (fst (step fixed c s o)) = true /\ pollutes c = true.
 Proof.
-  destruct s as [a b c0 d e e' f oo g h p]. destruct o; cbn [is_observer]; try discriminate; intros _; crush_step; auto.
+  destruct s as [a b c0 d e e' f oo tm g h p]. destruct o; cbn [is_observer]; try discriminate; intros _; crush_step; auto.
   all: destruct p, (pollutes c); cbn; auto.
 Qed.
 
